@@ -1,2 +1,3 @@
 pub mod data;
 pub mod schema_reader;
+pub mod cryptoframe;
